@@ -31,6 +31,12 @@ def _data():
     return data
 
 
+def _tmpdir():
+    """a private TemporaryDirectory (removed on exit); on a memory file system when there is one: directory creation on the shared disk costs milliseconds"""
+    shm = "/dev/shm"
+    return tempfile.TemporaryDirectory(prefix="verif_C11_", dir=shm if os.path.isdir(shm) and os.access(shm, os.W_OK) else None)
+
+
 def _norm(x):
     """tuples -> lists, recursively (the library returns tuples, cases are JSON lists)"""
     if isinstance(x, (list, tuple)):
@@ -228,14 +234,12 @@ def check_trn(case):
 
 def cases_trn(ctx):
     if ctx.quick:
-        main = _all_trn(4, 3, ("a", "b1", "@"))
-        extra = _all_trn(2, 2, ("a", "(x)", "é", "abc", "x'1", "@"))
-        per = 6
-    else:
-        main = _all_trn(5, 4, ("a", "b1", "@"))
-        extra = _all_trn(3, 3, ("a", "(x)", "é", "abc", "x'1", "@"))
+        gens = [_all_trn(5, 4, ("a", "b1", "@"), 2), _all_trn(4, 3, ("a", "b1", "@", "(x)"), 2), _all_trn(3, 2, ("a", "@"), 1), _all_trn(2, 1, ("a", "(x)", "\u00e9", "abc", "x'1", "@"), 1)]
         per = 8
-    for utts in _pack(itertools.chain(main, extra), per):
+    else:
+        gens = [_all_trn(5, 4, ("a", "b1", "@", "(x)"), 2), _all_trn(6, 5, ("a", "@"), 2), _all_trn(4, 3, ("a", "@"), 1), _all_trn(3, 2, ("a", "(x)", "\u00e9", "abc", "x'1", "@"), 1)]
+        per = 8
+    for utts in _pack(itertools.chain(*gens), per):
         yield {"utts": utts}
     # timed tokens (times are dropped by the format) next to alternates
     timed = [[["a", 0.0, 0.5], "b1"], [["abc", 1.0, 1.0], [[["a"], ["@"]], -1, -1], ["b1", 2, 3]], [["x", 0.5, 0.25]]]
@@ -264,7 +268,7 @@ def check_trn_processes(case):
     utts = case["utts"]
     given = [(u, _trn_in(t)) for u, t in utts]
     want = [[u, _trn_expect(t)] for u, t in utts]
-    with tempfile.TemporaryDirectory() as d, warnings.catch_warnings():
+    with _tmpdir() as d, warnings.catch_warnings():
         warnings.simplefilter("ignore")
         p = os.path.join(d, "x.trn")
         data.write_trn(given, p)
@@ -627,7 +631,7 @@ def check_dispatch(case):
     """case: {"fn": one of write_trn/write_ctm/write_textgrid/read_trn/read_ctm/read_textgrid, ...options}"""
     data = _data()
     fn = case["fn"]
-    with tempfile.TemporaryDirectory() as d:
+    with _tmpdir() as d:
         p1, p2 = os.path.join(d, "by_path"), os.path.join(d, "by_handle")
 
         def compare_files(extra=None):
@@ -976,8 +980,21 @@ def _kf1(case, msg):
 KNOWN_MATCH = {"KF-C11-1": _kf1}
 
 
+def _either(mine, other):
+    def pred(case, msg):
+        try:
+            if mine(case, msg):
+                return True
+        except Exception:
+            pass
+        return bool(other is not None and other(case, msg))
+
+    return pred
+
+
 def run_bounded(ctx):
-    ctx.known_match.update(KNOWN_MATCH)
+    for kid, fn in KNOWN_MATCH.items():
+        ctx.known_match[kid] = _either(fn, ctx.known_match.get(kid))  # the deductive part may register its own predicate under the same id
     # import once in the parent so the forked workers inherit the loaded modules
     import torch
 
@@ -993,12 +1010,13 @@ def run_bounded(ctx):
     q = ctx.quick
     if want("C11.trn.roundtrip"):
         ctx.bounded("C11.trn.roundtrip", check_trn, cases_trn(ctx),
-                    bound=("every transcript with <= %d leaf tokens over {a, b1, @}, alternates (1..n non-empty branches) nested to depth <= %d, and every one with <= %d leaves / depth <= %d over "
-                           "{a, (x), e-acute, abc, x'1, @}; %d utterances per file under ids {u1, 'utt 2', spk-A_003, 10, 9}; timed tokens next to alternates%s") % (
-                        (4, 3, 2, 2, 6, "") if q else (5, 4, 3, 3, 8, "; + 30000 seeded random files: 1..4 utterances, ids with spaces/braces/slashes, tokens of 1..5 characters from a 40-character "
-                                                                           "delimiter-free alphabet, up to 6 alternates nested to depth <= 6")),
+                    bound=("every transcript (sequence of tokens and alternates with >= 2 non-empty branches) with %s; with single-branch alternates allowed: %s; "
+                           "8 utterances per file under ids {u1, 'utt 2', spk-A_003, 10, 9}; timed tokens next to alternates%s") % (
+                        ("<= 5 leaf tokens over {a, b1, @} nested to depth <= 4, <= 4 leaves over {a, b1, @, (x)} to depth <= 3", "<= 3 leaves over {a, @} to depth 2, <= 2 leaves over {a, (x), e-acute, abc, x'1, @}", "") if q else
+                        ("<= 5 leaf tokens over {a, b1, @, (x)} nested to depth <= 4, <= 6 leaves over {a, @} to depth <= 5", "<= 4 leaves over {a, @} to depth 3, <= 3 leaves over {a, (x), e-acute, abc, x'1, @} to depth 2",
+                         "; + 30000 seeded random files: 1..4 utterances, ids with spaces/braces/slashes, tokens of 1..5 characters from a 40-character delimiter-free alphabet, up to 6 alternates nested to depth <= 6")),
                     text="read_trn(write_trn(T)) == T exactly (utterance ids, tokens, alternates tree; times of timed tokens are not stored); one line per utterance; writing the result again reproduces the file",
-                    nontrivial=_trn_nontrivial, chunk=64 if q else 128,
+                    nontrivial=_trn_nontrivial, chunk=64,
                     functions=["_parsing.write_trn", "_parsing.read_trn", "_parsing.read_trn_iter", "_parsing._trn_line_to_transcript", "_parsing._AltTree"])
     if want("C11.trn.processes"):
         ctx.bounded("C11.trn.processes", check_trn_processes, cases_trn_processes(ctx),
